@@ -42,7 +42,8 @@ deriving DecidableEq, Repr
 
 inductive Err where
   | wrongType   -- "unexpected message type"
-  | short       -- errShortRead / fieldError: the input ends inside a field
+  | short       -- the sentinel errShortRead: the input ends inside a field
+  | field       -- fieldError (an untyped error): the input ends inside a `string` field
   | parse       -- parseError: empty input, or bytes left after the last field
   | panic       -- the Go code panics
 deriving DecidableEq, Repr
@@ -196,7 +197,7 @@ def unmarshalField (k : Kind) (data : Bytes) : Except Err (Val × Bytes) :=
     | [] => .error .short
     | b :: r => .ok (.u8 b, r)
   | .str => match parseString data with
-    | none => .error .short
+    | none => .error .field
     | some (s, r) => .ok (.str s, r)
   | .bytes => match parseString data with
     | none => .error .short
